@@ -169,7 +169,7 @@ def build(key, data, grid_size=None):
     return tree
 
 
-def make_data(n, dims=1, grid=5, seed=0, kind="int", outlier_prob=0.0, sizes=None):
+def make_data(n, dims=1, grid=5, seed=0, kind="int", outlier_prob=0.0, sizes=None, offset=0.0):
     """Small data sets. kind='int': value = log(integer table) so sums of products are exact integers."""
     from phyclone.data.base import DataPoint
 
@@ -191,5 +191,8 @@ def make_data(n, dims=1, grid=5, seed=0, kind="int", outlier_prob=0.0, sizes=Non
             op, opn = np.log(outlier_prob) * size, np.log1p(-outlier_prob) * size
         else:
             op, opn = 0, 0.0
+        # offset: a "heavy" data point - every log-likelihood lowered by `offset` (times the sample index + 1)
+        if offset:
+            val = val - offset * (1 + np.arange(val.shape[0]))[:, None]
         data.append(DataPoint(i, np.ascontiguousarray(val), outlier_prob=op, outlier_prob_not=opn))
     return data
